@@ -462,6 +462,101 @@ func runC09(res *lib.Result, tier string, seed int64, args []string) error {
 			}
 		}
 		os.RemoveAll(dir)
+		if wi%3 == 0 {
+			if err := c09ProjectMode(res, wi, reps); err != nil {
+				return err
+			}
+		}
+	}
+	return nil
+}
+
+// project mode (luahelper.json ProjectFiles): the per-entry-file second pass builds its own table of _G globals from the
+// files of the project; a _G function assigned in two required files, and a member two files add to a _G table, must
+// resolve the same way in every run
+var c09ProjectFiles = map[string]string{
+	"luahelper.json": "{\"ShowWarnFlag\":1,\"ProjectFiles\":[\"pmain.lua\"]}",
+	"pa.lua":         "_G.pfoo = function(x) end\n",
+	"pb.lua":         "_G.pfoo = function(x, y) end\n",
+	"pc.lua":         "local z = 1\nprint(z)\n",
+	"pd.lua":         "local z = 2\nprint(z)\n",
+	"pt.lua":         "_G.PGT = {}\n",
+	"pu.lua":         "PGT.f = function(x) end\n",
+	"pv.lua":         "PGT.f = function(x, y) end\n",
+	"pmain.lua":      "require(\"pa\")\nrequire(\"pb\")\nrequire(\"pc\")\nrequire(\"pd\")\nrequire(\"pt\")\nrequire(\"pu\")\nrequire(\"pv\")\nlocal function run()\n  _G.pfoo(1, 2)\n  _G.PGT.f(1, 2)\nend\nrun()\n",
+}
+
+func c09ProjectMode(res *lib.Result, wi, reps int) error {
+	var worldText strings.Builder
+	var names []string
+	for f := range c09ProjectFiles {
+		names = append(names, f)
+	}
+	sort.Strings(names)
+	for _, f := range names {
+		worldText.WriteString("-- " + f + "\n" + c09ProjectFiles[f])
+	}
+	var first map[string]string
+	for rep := 0; rep < reps*2; rep++ {
+		runtime.GOMAXPROCS([]int{1, 2, 16}[rep%3])
+		dir := lib.ScratchDir(fmt.Sprintf("c09p%d", wi))
+		if err := lib.WriteWorkspace(dir, c09ProjectFiles); err != nil {
+			return err
+		}
+		caseText := fmt.Sprintf("project mode, run %d (GOMAXPROCS %d)\n%s", rep, []int{1, 2, 16}[rep%3], worldText.String())
+		lib.Breadcrumb("C09 " + caseText)
+		sess, err := lib.StartSession(dir, lib.AllChecksOptions())
+		if err != nil {
+			os.RemoveAll(dir)
+			res.AddViolation("crash-or-timeout", err.Error(), caseText, false)
+			return nil
+		}
+		obs := map[string]string{}
+		sess.DidOpen("pmain.lua", c09ProjectFiles["pmain.lua"])
+		sess.Sync()
+		for f, ds := range sess.DiagView() {
+			var l []string
+			for _, d := range ds {
+				l = append(l, fmt.Sprintf("%d:%d %s", d.Range.Start.Line, d.Range.Start.Character, d.Message))
+			}
+			sort.Strings(l)
+			obs["diag:"+f] = strings.Join(l, " | ")
+		}
+		for _, kp := range [][3]interface{}{{"pfoo", 8, 5}, {"PGT.f", 9, 9}} {
+			if locs, err := sess.Definition("pmain.lua", kp[1].(int), kp[2].(int)); err == nil {
+				var l []string
+				for _, x := range locs {
+					l = append(l, sess.Rel(x.URI)+":"+locOfRange(x.Range))
+				}
+				obs["def:"+kp[0].(string)] = strings.Join(l, " ")
+			}
+			if hov, err := sess.Hover("pmain.lua", kp[1].(int), kp[2].(int)); err == nil {
+				obs["hover:"+kp[0].(string)] = hov
+			}
+		}
+		sess.Close()
+		os.RemoveAll(dir)
+		res.Dist("runs.project-mode")
+		if first == nil {
+			first = obs
+			res.Count(worldText.String()+fmt.Sprint(wi), true)
+			continue
+		}
+		var keys []string
+		for k := range first {
+			keys = append(keys, k)
+		}
+		for k := range obs {
+			if _, ok := first[k]; !ok {
+				keys = append(keys, k)
+			}
+		}
+		sort.Strings(keys)
+		for _, k := range keys {
+			if first[k] != obs[k] {
+				res.AddViolation("inconsistent-answers", fmt.Sprintf("%s differs between two runs on the same workspace:\n  run 0: %s\n  run %d: %s", k, first[k], rep, obs[k]), caseText, false)
+			}
+		}
 	}
 	return nil
 }
